@@ -557,6 +557,10 @@ def capacity(rep, lib):
                                                     fields.add(p[i + 1])
                         for o in rv["ops"]:
                             collect(body, pr, o, depth + 1)
+                    else:
+                        # Some(x), a tuple ...: what the aggregate is built from
+                        for o in rv.get("ops", []):
+                            collect(body, pr, o, depth + 1)
         collect(go, prov, caps[0])
         if f_skip in fields and f_take in fields:
             r.ok(key, "capacity derives from cli.skip and cli.take", c.where())
@@ -998,4 +1002,208 @@ def break_origin(rep, lib, rid="C11-BREAK-ORIGIN"):
             r.bad(st.short + "::process", problems[0], pb.where())
         else:
             r.ok(st.short + "::process", "every non-error return is Ok(Continue)", pb.where())
+    return r
+
+
+def _mutable_fields(st):
+    """Fields of the stage that some method of the stage can change (assignment, `&mut` borrow, interior mutability);
+    None = the whole stage is handed on mutably somewhere (every field may change)."""
+    out = set()
+    for i, f in enumerate(st.fields):
+        if any(t in f["ty"] for t in ("Cell<", "Mutex<", "RwLock<", "Atomic")):
+            out.add("f%d" % i)
+    for b in st.bodies.values():
+        alias = {1}
+        grew = True
+        while grew:
+            grew = False
+            for bb, idx, place, rv, stmt in b.assignments():
+                if place["p"] or place["l"] in alias:
+                    continue
+                if rv["k"] == "ref" and rv["place"]["l"] in alias and rv["place"]["p"] == ["deref"]:
+                    alias.add(place["l"])
+                    grew = True
+                elif rv["k"] == "use" and rv["op"].get("k") in ("move", "copy") and not rv["op"]["place"]["p"] \
+                        and rv["op"]["place"]["l"] in alias:
+                    alias.add(place["l"])
+                    grew = True
+        for bb, idx, place, rv, stmt in b.assignments():
+            if place["l"] in alias and place["p"][:1] == ["deref"]:
+                fld = [p for p in place["p"][1:] if p.startswith("f") and p[1:].isdigit()]
+                if not fld:
+                    return None
+                out.add(fld[0])
+            if rv["k"] == "ref" and rv.get("mutbl") and rv["place"]["l"] in alias and rv["place"]["p"][:1] == ["deref"]:
+                fld = [p for p in rv["place"]["p"][1:] if p.startswith("f") and p[1:].isdigit()]
+                if fld:
+                    out.add(fld[0])
+        for c in b.calls:
+            for i, a in enumerate(c.args):
+                if a.get("k") in ("copy", "move") and not a["place"]["p"] and a["place"]["l"] in alias - {1} \
+                        and "&mut" in b.local_ty(a["place"]["l"]):
+                    return None
+    return out
+
+
+def _closure_reads(lib, name, cap):
+    """Fields of the value captured (by reference) as capture number `cap` that the closure body reads; None if the
+    captured value is used whole."""
+    cb = lib.bodies.get(name or "")
+    if cb is None:
+        return None
+    alias = set()
+    for bb, idx, place, rv, stmt in cb.assignments():
+        if rv["k"] == "use" and rv["op"].get("k") in ("copy", "move") and not place["p"]:
+            pl = rv["op"]["place"]
+            if pl["l"] == 1 and [x for x in pl["p"] if x != "deref"] == ["f%d" % cap]:
+                alias.add(place["l"])
+    if not alias:
+        return None
+    flds = set()
+    whole = [False]
+
+    def walk(x):
+        if isinstance(x, dict):
+            if "l" in x and "p" in x and isinstance(x["p"], list):
+                if x["l"] in alias:
+                    f = [p_ for p_ in x["p"] if isinstance(p_, str) and p_.startswith("f") and p_[1:].isdigit()]
+                    if x["p"][:1] == ["deref"] and f:
+                        flds.add(f[0])
+                    else:
+                        whole[0] = True
+                elif x["l"] == 1 and [q for q in x["p"] if q != "deref"] == ["f%d" % cap]:
+                    pass
+                return
+            for v in x.values():
+                walk(v)
+        elif isinstance(x, list):
+            for v in x:
+                walk(v)
+    for i, blk in enumerate(cb.raw["blocks"]):
+        for st_ in blk["stmts"]:
+            if st_.get("k") == "assign" and not st_["place"]["p"] and st_["place"]["l"] in alias:
+                continue
+            walk(st_.get("rv"))
+            if st_.get("k") != "assign":
+                continue
+        walk({k: v for k, v in blk["term"].items() if k in ("args", "discr", "cond", "place")})
+    return None if whole[0] else sorted(flds)
+
+
+def withhold(rep, lib, rid="C03-WITHHOLD"):
+    """A pass-through stage withholds a row only for a reason computed from that row."""
+    r = rep.rule(rid, "a stage that hands rows on (pre-sets, selection, filter, splitter, unique) keeps a row back only "
+                 "because of what was computed from that row: every branch that decides between `the row reaches "
+                 "self.next.process` and `process returns without it` is decided by the result of the stage's own "
+                 "getter on the row (or, for --unique, by HashSet::insert), never by the stage's state, a counter or a "
+                 "capacity - a stage that starts swallowing rows drops output and keeps the limiter from ever "
+                 "counting the row on which it would answer Break",
+                 floor=5, analysis="CFG reachability avoiding the successor call + A4 provenance of the deciding "
+                                   "switch, followed backwards through call arguments")
+    stage_cls, tab = common.stage_classes(lib)
+    def is_terminal(c):
+        n = c.callee or ""
+        return n == "selection::Get::get" or (n.startswith("std::collections::HashSet") and n.endswith("::insert"))
+
+    for st in common.stages(lib):
+        cls = stage_cls.get(st.struct)
+        if st.is_sink() or st.is_buffering() or cls == "limit":
+            continue
+        pb = st.bodies.get("process")
+        if pb is None:
+            r.missing(st.short + "::process")
+            continue
+        sites = st.next_calls(pb, "process")
+        key = st.short + "::process"
+        if not sites:
+            r.bad(key, "the stage never hands a row to its successor", pb.where())
+            continue
+        callbbs = {c.bb for c in sites}
+        free = pb.reachable(0, avoid=callbbs)
+        rets = [bb for bb in free if pb.term(bb)["k"] == "return" and not pb.raw["blocks"][bb].get("cleanup")]
+        if not rets:
+            r.ok(key, "every return has passed self.next.process", pb.where())
+            continue
+        # switches inside the successor-free region from which the successor call is still reachable
+        deciding = []
+        for bb in sorted(free):
+            t = pb.term(bb)
+            if t["k"] != "switch":
+                continue
+            succ = set(pb.succ(bb))
+            to_call = [s for s in succ if s in callbbs or (pb.reachable(s) & callbbs)]
+            to_ret = [s for s in succ if s in free and any(x in pb.reachable(s, avoid=callbbs) for x in rets)]
+            if to_call and to_ret and set(to_call) != set(to_ret) or (to_call and to_ret and len(succ) > 1 and
+                                                                     any(s not in to_call for s in to_ret)):
+                deciding.append(bb)
+        pr = Prov(pb, common.LOOK)
+        problems = []
+        seen_terminal = False
+        mutable = _mutable_fields(st)
+        # a decision taken on a flag that earlier branches set (`let pass = matches!(..); if !pass {..}`): the
+        # branches in front of it decide as well
+        grew = True
+        while grew:
+            grew = False
+            for bb in list(deciding):
+                at = pr.origins(pb.term(bb)["discr"])
+                if at and all(a[0] == "const" for a in at):
+                    for sb in sorted(free):
+                        if sb not in deciding and pb.term(sb)["k"] == "switch" and bb in pb.reachable(sb):
+                            deciding.append(sb)
+                            grew = True
+        for bb in deciding:
+            work = list(pr.origins(pb.term(bb)["discr"]))
+            done = set()
+            while work:
+                a = work.pop()
+                if a in done:
+                    continue
+                done.add(a)
+                if a[0] == "arg":
+                    fld = [p_ for p_ in a[2] if isinstance(p_, str) and p_.startswith("f") and p_[1:].isdigit()]
+                    if a[1] == 1 and (mutable is None or not fld or fld[0] in mutable):
+                        problems.append("bb%d is decided by the stage's own state (self%s)" % (
+                            bb, "." + ".".join(str(p) for p in a[2]) if a[2] else ""))
+                elif a[0] == "call":
+                    c = pb.call_at.get(a[1])
+                    if c is None:
+                        continue
+                    if is_terminal(c):
+                        seen_terminal = True
+                        continue
+                    for i in range(len(c.args)):
+                        work.extend(pr.origins(c.args[i]))
+                elif a[0] == "outparam":
+                    c = pb.call_at.get(a[1])
+                    if c is not None and a[2] < len(c.args) and not is_terminal(c):
+                        work.extend(pr.origins(c.args[a[2]]))
+                elif a[0] == "agg":
+                    rv = pr.agg_at(a[1], a[2])
+                    if rv is None:
+                        continue
+                    for i, o in enumerate(rv.get("ops", [])):
+                        at = pr.origins(o)
+                        whole_self = [x for x in at if x[0] == "arg" and x[1] == 1 and not
+                                      [p_ for p_ in x[2] if isinstance(p_, str) and p_.startswith("f")]]
+                        if whole_self and rv.get("agg") == "closure":
+                            # a closure that captures the stage: what it reads of it
+                            flds = _closure_reads(lib, rv.get("closure"), i)
+                            if flds is None:
+                                work.extend(at)
+                            else:
+                                work.extend(("arg", 1, ("deref", f)) for f in flds)
+                                work.extend(x for x in at if x not in whole_self)
+                        else:
+                            work.extend(at)
+        if problems:
+            r.bad(key, "a row can be kept back for a reason that is not computed from the row: %s" % problems[0],
+                  pb.where(deciding[0] if deciding else None),
+                  witness="return bb%d reachable without self.next.process; path %s" % (rets[0], pb.path(0, rets[0], avoid=callbbs)))
+        elif not deciding or not seen_terminal:
+            r.bad(key, "a return is reachable without the row being handed on, and no branch on the row's own value "
+                  "decides it (unrecognised idiom)", pb.where())
+        else:
+            r.ok(key, "%d deciding branch(es), each on the result of the stage's getter / the set's insert"
+                 % len(deciding), pb.where())
     return r
